@@ -220,6 +220,7 @@ class Outcome:
         self.distinct = set()
         self.dist = {}
         self.tie = []           # (item, detail, replay)
+        self.probe_failures = []  # (kind, what, replay): the spec evaluated on outputs of the real functions behind `mos verif-probe`
 
     def bump(self, k, n=1):
         self.dist[k] = self.dist.get(k, 0) + n
@@ -529,7 +530,8 @@ def correspond_deltas(rng, probe, model, n, out):
         for p in token_problems([x for d in r["data"] for x in d], None):
             if "overlap" in p and any(not (s1[1] <= s2[0] or s2[1] <= s1[0]) for i1, s1 in enumerate(spans) for s2 in spans[i1 + 1:]):
                 continue       # overlapping input spans: only sortedness / non-zero length is promised
-            out.tie.append(("oracle:to_deltas", p, {"text": t, "spans": spans, "impl": impl}))
+            out.probe_failures.append(("tokens", "to_deltas on %r with byte spans %s: %s (data %s)" % (t, spans, p, impl),
+                                       {"probe": {"cmd": "c14_deltas", "text": t, "spans": spans}}))
 
 
 def positions_grid(rng, mos, model, workdir, n, out, fails):
@@ -645,6 +647,8 @@ def run(chk):
         report(kind, what, h, "positions-grid")
     correspond_codemap(rng, probe, model, 1500 if thorough else 150, out)
     correspond_deltas(rng, probe, model, 3000 if thorough else 300, out)
+    for kind, what, rp in out.probe_failures[:3]:
+        chk.oracle_failure(None, "%s: %s" % (kind, what), rp)
     for item, detail, replay_ in out.tie:
         chk.tie_break(item, detail, replay_)
     model.stop()
@@ -681,8 +685,13 @@ def run(chk):
 
 def replay(chk, path):
     obj = json.load(open(path, encoding="utf-8"))
-    hist = obj["replay"]["history"] if "replay" in obj else obj
     mos = common.build_mos()
+    if "replay" in obj and "probe" in obj["replay"]:
+        r = Proc([mos, "verif-probe"]).call(obj["replay"]["probe"])
+        probs = token_problems([x for d in r.get("data", []) for x in d], None)
+        print(json.dumps({"request": obj["replay"]["probe"], "reply": r, "problems": probs}, indent=1, ensure_ascii=False))
+        return 1 if probs else 0
+    hist = obj["replay"]["history"] if "replay" in obj else obj
     workdir = os.path.join(common.CACHE, "work")
     os.makedirs(workdir, exist_ok=True)
     fails = check_history(mos, hist, workdir, Outcome(), stop_at_first=False)
